@@ -23,6 +23,13 @@ def repo_root():
     return os.environ.get("VERIF_REPO", "/repo")
 
 
+
+def deep_sym(x):
+    if isinstance(x, tuple):
+        return any(deep_sym(y) for y in x)
+    return is_sym(x)
+
+
 class _Return(Exception):
     def __init__(self, value):
         self.value = value
@@ -442,7 +449,7 @@ class Interp:
             n = v.len()
             return (n != 0) if isinstance(n, int) else bool(n != 0)
         if isinstance(v, VDict):
-            return bool(v.d)
+            return bool(v.d) or bool(v.sym)
         if isinstance(v, VSet):
             if v.abstract:
                 raise OutOfSubset("truth value of an abstract set")
@@ -696,9 +703,9 @@ class Interp:
                 return False
             return mk_bool(z3.Or(terms))
         if isinstance(container, VDict):
-            if is_sym(x):
+            if deep_sym(x) or container.sym:
                 terms = []
-                for k in container.d:
+                for k in list(container.d) + [kk for kk, _ in container.sym]:
                     r = self.compare_one(ast.Eq(), k, x)
                     if isinstance(r, bool):
                         if r:
@@ -740,10 +747,13 @@ class Interp:
                 return v[k]
             return VList(list(v)).get(k)
         if isinstance(v, VDict):
-            if is_sym(k):
+            if deep_sym(k) or v.sym:
                 for kk in v.d:
                     if self.truthy(self.compare_one(ast.Eq(), kk, k)):
                         return v.d[kk]
+                for kk, vv in v.sym:
+                    if self.truthy(self.compare_one(ast.Eq(), kk, k)):
+                        return vv
                 raise PyRaise(KeyError(k))
             try:
                 if k in v.d:
@@ -777,8 +787,20 @@ class Interp:
             v.set(k, val)
             return
         if isinstance(v, VDict):
-            if is_sym(k):
-                raise OutOfSubset("symbolic dict key store")
+            if deep_sym(k) or v.sym:
+                for kk in list(v.d):
+                    if self.truthy(self.compare_one(ast.Eq(), kk, k)):
+                        v.d[kk] = val
+                        return
+                for i, (kk, _) in enumerate(v.sym):
+                    if self.truthy(self.compare_one(ast.Eq(), kk, k)):
+                        v.sym[i] = (kk, val)
+                        return
+                if deep_sym(k):
+                    v.sym.append((k, val))
+                else:
+                    v.d[k] = val
+                return
             v.d[k] = val
             return
         if isinstance(v, VObj):
@@ -811,7 +833,7 @@ class Interp:
                     return [mk_str(z3.SubString(v.t, j, 1)) for j in range(n0)]
             return None
         if isinstance(v, VDict):
-            return list(v.d.keys())
+            return list(v.d.keys()) + [kk for kk, _ in v.sym]
         if isinstance(v, VSet):
             return None if v.abstract else list(v.items)
         if isinstance(v, RangeVal):
